@@ -12,6 +12,11 @@ pub const REDUCED: [&str; 12] = ["(", ")", "{", "}", "num", "x", "'p", "|", ",",
 
 pub const PREFIXES: [&str; 3] = ["", "let a = ", "res "];
 
+/// Second reduced alphabet, behind `let a = x `: arguments of an application where `/ {` may start a URI variable or
+/// be the root URI followed by an object — the one place where the same tokens are tried under two readings.
+pub const REDUCED2: [&str; 8] = ["/", "{", "}", "'p", "x", ",", ";", "num"];
+pub const PREFIX2: &str = "let a = x ";
+
 /// Number of sequences of length <= max_len over an alphabet of size k.
 pub fn count(k: u64, max_len: u32) -> u64 {
     let mut n = 0;
